@@ -62,6 +62,14 @@ def make_spec(alpha, beta, side, topo, cur, w_init):
             'init': {'theta': [0.0, 'rad'], 'w': [w_init, 'rad/s']}}
 
 
+def in_unit(spec, unit):
+    """The initial speed written in another unit (a held chain's speeds become 0 rad/s objects: units then differ along the history)."""
+    w = spec['init']['w']
+    spec['init']['w'] = [si.convert(w[0], 'AngularSpeed', w[1], unit), unit]
+    spec['init']['theta'] = [0.0, 'deg']
+    return spec
+
+
 BASE = dict(alpha=20.0, beta=10.0, topo=1, cur=True, dt=0.125, w=0.0)
 
 
@@ -79,6 +87,7 @@ def shards(tier):
             for topo in (1, 2):
                 cfgs = [dict(BASE, alpha=a, beta=b, side=side, topo=topo)]
                 cfgs.append(dict(cfgs[0], cur=False))
+                cfgs.append(dict(cfgs[0], w=INITW[1], wunit='rpm'))
                 if tier == 'quick':
                     cfgs += [dict(cfgs[0], dt=DTS[1]), dict(cfgs[0], w=INITW[2])]
                 else:
@@ -93,6 +102,8 @@ def check_case(acc, cfg, env_seq, cover, split=None):
     if spec is None:
         acc.outcomes['not-buildable'] += 1
         return
+    if cfg.get('wunit'):
+        in_unit(spec, cfg['wunit'])
     stall = menu.stall_at_output(spec)
     duty = [ENV[i][0] for i in env_seq]
     spec['load'] = ['script', [ENV[i][1] * stall for i in env_seq]]
@@ -136,7 +147,7 @@ def check_case(acc, cfg, env_seq, cover, split=None):
             acc.violation(f'C13/free-chain/{sfx}', clause, case, dd)
         acc.transitions += traj.motion(obs, chain, emit3, info['dts'], info['starts'])
     mot = obs['el'][0]
-    key0 = (cfg['alpha'], cfg['beta'], cfg['side'], cfg['topo'], cfg['cur'], cfg['dt'])
+    key0 = (cfg['alpha'], cfg['beta'], cfg['side'], cfg['topo'], cfg['cur'], cfg['dt'], cfg.get('wunit'))
     for k in range(n):
         acc.state((key0, k, mot['angular speed'][k], mot['angular acceleration'][k], mot['torque'][k],
                    mot['pwm'][k]))
